@@ -32,3 +32,6 @@ $OPENSSL x509 -req -in expired.csr -CA ca.cert.pem -CAkey ca.key.pem -CAcreatese
 faketime_missing=1
 rm -f expired.csr expired.ext *.srl
 ls -1 *.pem
+# expired self-signed end-entity certificate (used pinned as a root)
+$OPENSSL req -x509 -newkey rsa:2048 -nodes -keyout expiredself.key.pem -out expiredself.cert.pem -subj "/CN=good.test" \
+  -addext "subjectAltName=DNS:good.test,IP:127.0.0.1" -addext "basicConstraints=CA:FALSE" -not_before 20010101000000Z -not_after 20010102000000Z 2>/dev/null
